@@ -167,3 +167,23 @@ func show(i int, s string) string {
 	}
 	return s
 }
+
+// firstDiffCanon is firstDiff with storage values compared as numbers (leading zero bytes ignored):
+// the storage trie stores values without leading zeros, a state's cache keeps what was written, so
+// a state that reloads a committed slot reads the canonical form of the same value.
+func firstDiffCanon(a, b []string) (idx int, n int) {
+	idx = -1
+	for i := range a {
+		if a[i] == b[i] {
+			continue
+		}
+		if c := obsClass[i]; (c == clStorage || c == clCommitted) && strings.TrimLeft(a[i], "\x00") == strings.TrimLeft(b[i], "\x00") {
+			continue
+		}
+		n++
+		if idx < 0 || obsClass[i] < obsClass[idx] {
+			idx = i
+		}
+	}
+	return idx, n
+}
